@@ -89,6 +89,10 @@ pub struct History {
     /// under exactly the name the running configuration uses
     #[serde(default)]
     pub preinstalled: Vec<(u8, u16, u16)>,
+    /// how the router spells its get-config replies (prefixes, white space, comments, quotes,
+    /// XML declaration, `<reject></reject>`); `None` = the style of the repository's fixtures
+    #[serde(default)]
+    pub junos_style: Option<crate::xmlgen::Style>,
 }
 
 /// the ephemeral state before the first run of a history
@@ -139,8 +143,22 @@ fn entries(plain: &[String]) -> BTreeSet<Entry> {
         .collect()
 }
 
+/// the annotation of policy i: every third one contains characters XML has to escape in an
+/// attribute value (an AS-path regular expression, which is valid mp-filter syntax)
 fn expr_for(i: usize) -> String {
-    format!("AS{}", 65000 + i)
+    if i % 3 == 1 {
+        format!("AS{} AND <^AS{}>", 65000 + i, 65000 + i)
+    } else {
+        format!("AS{}", 65000 + i)
+    }
+}
+
+fn same_expression(a: &str, b: &str) -> bool {
+    use rpsl::expr::MpFilterExpr;
+    match (a.parse::<MpFilterExpr>(), b.parse::<MpFilterExpr>()) {
+        (Ok(x), Ok(y)) => x == y,
+        _ => a == b,
+    }
 }
 
 #[derive(Debug, Clone, Copy, PartialEq, Eq)]
@@ -174,6 +192,10 @@ pub fn check_history(h: &History, which: Which, obs: &mut Obs) {
             obs.class("starts-from-a-preinstalled-state");
             fake.lock().unwrap().ephemeral = seed;
         }
+        if let Some(style) = &h.junos_style {
+            obs.class("router-replies-in-a-generated-style");
+            fake.lock().unwrap().style = Some(style.clone());
+        }
     }
     for (r, run) in h.runs.iter().enumerate() {
         // the running configuration of this run
@@ -197,11 +219,13 @@ pub fn check_history(h: &History, which: Which, obs: &mut Obs) {
             };
             stmts.push(stmt);
         }
-        // evaluation function: by expression (unique per policy)
+        // evaluation function: by policy name (unique per policy; the expression text the agent
+        // hands over is its own rendering of the parsed expression)
         let mut by_expr: BTreeMap<String, Option<(Vec<String>, Vec<String>)>> = BTreeMap::new();
         for (i, p) in run.policies.iter().enumerate() {
+            let Some(n) = names.get(i) else { continue };
             by_expr.insert(
-                expr_for(i),
+                n.clone(),
                 if p.eval_fails {
                     None
                 } else {
@@ -216,7 +240,7 @@ pub fn check_history(h: &History, which: Which, obs: &mut Obs) {
                 .lock()
                 .unwrap()
                 .push((name.to_string(), expr.to_string()));
-            by_expr.get(expr).cloned().flatten()
+            by_expr.get(name).cloned().flatten()
         };
         let before = {
             let mut f = fake.lock().unwrap();
@@ -413,7 +437,9 @@ pub fn check_history(h: &History, which: Which, obs: &mut Obs) {
                     if ps.attr("delete").is_none() {
                         let want = expr_for(idx.unwrap());
                         match ps.attr("junos:comment") {
-                            Some(c) if c.ends_with(&format!("from mp-filter expression {want}")) => {}
+                            Some(c)
+                                if c.split_once("from mp-filter expression ")
+                                    .is_some_and(|(_, e)| same_expression(e, &want)) => {}
                             other => obs.fail(
                                 "comment-does-not-carry-the-expression",
                                 format!("run {r}: junos:comment of {name:?} is {other:?}, expected it to end with the expression {want}"),
@@ -818,9 +844,22 @@ pub fn history_strategy(max_runs: usize) -> BoxedStrategy<History> {
                     2 => Just(Vec::new()),
                     1 => prop::collection::vec((0..n as u8, any::<u16>().prop_map(|m| m & 0xfff), any::<u16>().prop_map(|m| m & 0xfff)), 1..=n),
                 ],
+                prop::option::weighted(0.3, crate::xmlgen::style_strategy()),
             )
         })
-        .prop_map(|(names, runs, preinstalled)| History { names, runs, preinstalled })
+        .prop_map(|(names, runs, preinstalled, style)| History {
+            names,
+            runs,
+            preinstalled,
+            // the self-closed spelling of empty containers is a known C13 finding of the library
+            // (<data/>), and white space around a name is part of the name
+            junos_style: style.map(|s| crate::xmlgen::Style {
+                collapse_containers: false,
+                token_ws: crate::xmlgen::Ws::None,
+                scope: None,
+                ..s
+            }),
+        })
         .boxed()
 }
 
